@@ -22,7 +22,7 @@
 //   cnew,c | cclone,c,d,k (k=1 bloc_clone_context, k=2 bloc_clone_context2) | cfree,c | cpurge,c | cpwm,c
 //   reg,c,s,HEXNAME,major,ndim | find,c,s,HEXNAME | store,c,s,v | storeu,c,s,v (witness only) | load,c,s,v
 //   vnull,v,major | vbool,v,b | vint,v,dec | vnum,v,hex16 | vlit,v,HEX|- | vraw,v,HEX|- | vimag,v,hex16,hex16 | vfree,v
-//   alit,v,HEX|- | araw,v,HEX|- | anull,v | vdump,v | acc,v,K | accu,v,K   (K in b i n l x t u c; accu = no null guard)
+//   alit,v,HEX|- | araw,v,HEX|- | anull,v | vdump,v | acc,v,K | accu,v,K   (K in b i n l x t u c; accu = synonym of acc)
 //   tabitem,v,idx,w | tupitem,v,idx,w
 //   eparse,c,e,HEXSRC,<model text> | efree,e | etype,c,e | eval,c,e,v
 //   xparse,c,x,HEXSRC,<model text>,p | xfree,x | exec,x | exec2,c,x | drop,c,v | brk,c | rst,c | out,c
@@ -284,20 +284,17 @@ static std::string doOp(const std::string& op) {
   if (cmd == "acc" || cmd == "accu") {
     int v = I(1); if (!valLive(v) || a.size() < 3) return PRE;
     int k = kindIdx(a[2]); if (k < 0) return PRE;
-    bloc_value* p = V[v].p; bool guard = (cmd == "acc");
+    bloc_value* p = V[v].p;   // `accu` once skipped a null guard around bloc_literal / bloc_tabchar: no guard is needed any more
     char buf[64];
     switch (k) {
     case 0: { bloc_bool* d = (bloc_bool*)1; if (!bloc_boolean(p, &d)) return "0"; return d ? (*d ? "1:B1" : "1:B0") : "1:null"; }
     case 1: { int64_t* d = (int64_t*)1; if (!bloc_integer(p, &d)) return "0"; return d ? "1:I" + std::to_string((long long)*d) : std::string("1:null"); }
     case 2: { double* d = (double*)1; if (!bloc_numeric(p, &d)) return "0"; if (!d) return "1:null"; uint64_t b; memcpy(&b, d, 8); snprintf(buf, sizeof buf, "1:D%016" PRIx64, b); return buf; }
-    case 3: { bloc_type t = bloc_value_type(p);
-      if (guard && t.major == LITERAL && t.ndim == 0 && bloc_value_isnull(p)) return "g";
-      const char* d = (const char*)1; if (!bloc_literal(p, &d)) return "0"; return d ? "1:S" + hexenc(d, strlen(d)) : std::string("1:null"); }
-    case 4: { bloc_type t = bloc_value_type(p);
-      if (guard && t.major == TABCHAR && t.ndim == 0 && bloc_value_isnull(p)) return "g";
-      const char* d = (const char*)1; unsigned n = 0; if (!bloc_tabchar(p, &d, &n)) return "0";
-      // an EMPTY bytes value yields a NULL data pointer too (std::vector::data()): told apart by the null flag only
-      if (bloc_value_isnull(p)) return d ? "1:notnull!" : "1:null";
+    case 3: { const char* d = (const char*)1; if (!bloc_literal(p, &d)) return "0"; return d ? "1:S" + hexenc(d, strlen(d)) : std::string("1:null"); }
+    case 4: { const char* d = (const char*)1; unsigned n = 0xdeadu; if (!bloc_tabchar(p, &d, &n)) return "0";
+      // an EMPTY bytes value yields a NULL data pointer too (std::vector::data()): told apart by the null flag only;
+      // a null value must come back as *buf = NULL and *len = 0 (both out parameters written)
+      if (bloc_value_isnull(p)) return d ? "1:notnull!" : (n ? "1:null!len" : "1:null");
       return (d || n == 0) ? "1:R" + hexenc(d, n) : std::string("1:null!"); }
     case 5: { bloc_array* d = (bloc_array*)1; if (!bloc_table(p, &d)) return "0"; return d ? "1:sz" + std::to_string(bloc_array_size(d)) : std::string("1:null"); }
     case 6: { bloc_row* d = (bloc_row*)1; if (!bloc_tuple(p, &d)) return "0"; return d ? "1:sz" + std::to_string(bloc_tuple_size(d)) : std::string("1:null"); }
